@@ -167,6 +167,10 @@ def r2_accumulate_then_flush(ctx: Ctx) -> None:
     addr_assigns = [n for n in walk_no_nested(pe.node) if isinstance(n, ast.Assign) and unparse(n.targets[0]) == "current_block_addr"]
     ctx.check(len(addr_assigns) == 2 and all(unparse(a.value) == "self.resolver.pc" for a in addr_assigns), "Program.emit:block-address-source",
               f"the block address is resolver.pc, read at start and after each *=; found {[unparse(a) for a in addr_assigns]}")
+    i_flush = next(i for i, b in enumerate(fi.body) if _is_flush(b))
+    cleared = [i for i, b in enumerate(fi.body) if isinstance(b, ast.Assign) and unparse(b.targets[0]) == "current_block" and unparse(b.value) in ("b''", "bytes()")]
+    ctx.check(bool(cleared) and cleared[0] > i_flush, "Program.emit:cleared-after-flush",
+              "once written, the pending block is emptied: otherwise its bytes are written again in front of the next block")
     in_flush = [a for a in addr_assigns if a in fi.body]
     if in_flush:
         i_fl = next(i for i, b in enumerate(fi.body) if _is_flush(b))
